@@ -956,6 +956,33 @@ def _add_sldid(c):
 # BOUNDED native job: whole decks, every layout, generated layouts, interleaved edits
 
 
+def _non_dimension_edits_keep_inheritance():
+    """on a fresh slide, edits of a placeholder that concern neither position nor size (rotation, name, text, a fill, a line width) leave
+    left / top / width / height what the layout placeholder (or the master's) reports; returns a description of the first failure"""
+    from pptx import Presentation
+
+    dims = ("left", "top", "width", "height")
+    edits = [("rotation = 0", lambda ph: setattr(ph, "rotation", 0)), ("rotation = 30.5", lambda ph: setattr(ph, "rotation", 30.5)), ("name", lambda ph: setattr(ph, "name", "renamed")),
+             ("text", lambda ph: setattr(ph.text_frame, "text", "x") if ph.has_text_frame else None), ("fill.solid()", lambda ph: ph.fill.solid()),
+             ("line.width", lambda ph: setattr(ph.line, "width", 12700))]
+    for li in (0, 1, 3, 8):
+        for what, edit in edits:
+            prs = Presentation()
+            sl = prs.slides.add_slide(prs.slide_layouts[li])
+            for ph in list(sl.placeholders)[:3]:
+                if ph._element.xpath("./p:spPr/a:xfrm/a:off | ./p:spPr/a:xfrm/a:ext"):
+                    continue
+                inherited = {d: getattr(ph, d) for d in dims}
+                try:
+                    edit(ph)
+                except Exception:
+                    continue
+                got = {d: getattr(ph, d) for d in dims}
+                if got != inherited:
+                    return "layout %d placeholder idx %s: after %s its position / size read %r, inherited were %r" % (li, ph.placeholder_format.idx, what, got, inherited)
+    return None
+
+
 def _native_layouts(tier="quick", seed=0):
     import io
     import itertools
@@ -1065,6 +1092,8 @@ def _native_layouts(tier="quick", seed=0):
                 if got != want:
                     bad = bad or "layout %d placeholder idx %s: %s = 111111 then %s = 222222 gives %r, expected %r" % (li, ph.placeholder_format.idx, a, b, got, want)
     record("C13.native.overriding_two_dimensions_keeps_the_others_inherited", bad, "every ordered pair of dimension overrides on fresh inheriting placeholders")
+    evals += 72
+    record("C13.native.edits_other_than_position_and_size_keep_them_inherited", _non_dimension_edits_keep_inheritance(), "rotation, name, text, fill, line on fresh inheriting placeholders")
     # notes slide: the notes master's placeholders in every sampled z-order, and with a duplicated cloneable placeholder
     import copy
 
